@@ -218,6 +218,23 @@ theorem Static.bump {binds : Array Binding} (hs : Static binds) {i : Nat} {b : B
   · simp only [hij, if_false] at hx
     exact hs j x hx e he
 
+/-- Replacing a binding by one with the same behaviour table keeps `Static`. -/
+theorem Static.replace {binds : Array Binding} (hs : Static binds) {i : Nat} {b : Binding} (h : binds[i]? = some b)
+    (b' : Binding) (he : b'.entries = b.entries) : Static (binds.setIfInBounds i b') := by
+  intro j x hx e hm
+  rw [Array.getElem?_setIfInBounds] at hx
+  by_cases hij : i = j
+  · subst hij
+    simp only [if_true] at hx
+    split at hx
+    · cases hx; rw [he] at hm; exact hs i b h e hm
+    · cases hx
+  · simp only [hij, if_false] at hx
+    exact hs j x hx e hm
+
+theorem Static.fired {binds : Array Binding} (hs : Static binds) {i : Nat} {b : Binding} (h : binds[i]? = some b) :
+    Static (binds.setIfInBounds i b.fired) := hs.replace h _ rfl
+
 @[simp] theorem offers_say_offer (st : St) (k : Kind) (w : WinTree.Id) (e : Ev) (b : Bool) :
     offers (st.say (.offer k w e b)).log = offers st.log ++ [(k, w, e)] := rfl
 
@@ -238,15 +255,18 @@ theorem runBindings_static (kind : Kind) (win : WinTree.Id) (ev : Ev) :
     | none => simpa [hb] using ih st hs
     | some b =>
       simp only [hb]
+      by_cases hg : b.gone = true
+      · simp only [hg, if_true]; exact ih st hs
+      simp only [hg, Bool.false_eq_true, if_false]
       have ha := hs.entry hb
       simp only [ha, doActions, res_pure, res_bind_ok]
       by_cases hr : b.entry.ret = true
       · simp only [hr, if_true]
-        exact ⟨_, true, rfl, rfl, rfl, hs.bump hb _, rfl, rfl⟩
+        exact ⟨_, true, rfl, rfl, rfl, hs.fired hb, rfl, rfl⟩
       · simp only [hr, if_false]
         obtain ⟨st', c, h1, h2, h3, h4, h5, h6⟩ := ih
-          (({ st with binds := st.binds.setIfInBounds bi { b with count := b.count + 1 } } : St).say
-            (.call kind win b.idx (entryIndex b) b.entry.ret ev)) (hs.bump hb _)
+          (({ st with binds := st.binds.setIfInBounds bi b.fired } : St).say
+            (.call kind win b.idx (entryIndex b) b.entry.ret ev)) (hs.fired hb)
         exact ⟨st', c, by simpa [hr] using h1, h2, h3, h4, h5, h6⟩
 
 theorem runHandlers_static (kind : Kind) (win : WinTree.Id) (ev : Ev) (st : St) (hs : Static st.binds) :
@@ -1236,24 +1256,110 @@ theorem handleMouse_static : ∀ (f : Nat), MouseRecOK (handleMouse Cfg.repaired
 
 /-! ### what a dispatch adds to the log, whatever the handlers do -/
 
-/-- `st'` extends the log of `st` by items that all satisfy `P`. -/
-def Ext (P : LogItem → Prop) (st st' : St) : Prop := ∃ new, st'.log = new ++ st.log ∧ ∀ i ∈ new, P i
+/-- What may happen to one binding while events are dispatched: it is the same binding (window, kind, index,
+    behaviour table, one-shot flag); it changes only by being invoked (`count` grows); once it is gone (a fired
+    one-shot binding, or one that unbound itself) nothing about it changes any more — it is never invoked again; a
+    one-shot binding is invoked at most once more, and is gone as soon as it has been. -/
+structure BStep (x x' : Binding) : Prop where
+  win : x'.win = x.win
+  kind : x'.kind = x.kind
+  idx : x'.idx = x.idx
+  entries : x'.entries = x.entries
+  oneshot : x'.oneshot = x.oneshot
+  count : x.count ≤ x'.count
+  same : x'.count = x.count → x' = x
+  gone : x.gone = true → x' = x
+  once : x.oneshot = true → x'.count ≤ x.count + 1 ∧ (x.count < x'.count → x'.gone = true)
 
-theorem Ext.refl (P : LogItem → Prop) (st : St) : Ext P st st := ⟨[], rfl, by simp⟩
+theorem BStep.refl (x : Binding) : BStep x x :=
+  ⟨rfl, rfl, rfl, rfl, rfl, Nat.le_refl _, fun _ => rfl, fun _ => rfl, fun _ => ⟨Nat.le_succ _, fun h => absurd h (Nat.lt_irrefl _)⟩⟩
 
-theorem Ext.of_log {P : LogItem → Prop} {st st' : St} (h : st'.log = st.log) : Ext P st st' := ⟨[], by simpa using h, by simp⟩
+theorem BStep.trans {x y z : Binding} (h1 : BStep x y) (h2 : BStep y z) : BStep x z := by
+  refine ⟨h2.win.trans h1.win, h2.kind.trans h1.kind, h2.idx.trans h1.idx, h2.entries.trans h1.entries,
+    h2.oneshot.trans h1.oneshot, Nat.le_trans h1.count h2.count, ?_, ?_, ?_⟩
+  · intro hc
+    have c1 := h1.count
+    have c2 := h2.count
+    have e1 : y = x := h1.same (by omega)
+    have e2 : z = y := h2.same (by omega)
+    rw [e2, e1]
+  · intro hg
+    have e1 := h1.gone hg
+    have e2 := h2.gone (by rw [e1]; exact hg)
+    rw [e2, e1]
+  · intro ho
+    obtain ⟨a1, b1⟩ := h1.once ho
+    obtain ⟨a2, b2⟩ := h2.once (by rw [h1.oneshot]; exact ho)
+    by_cases hc : x.count < y.count
+    · have e2 := h2.gone (b1 hc)
+      rw [e2]; exact ⟨a1, fun _ => b1 hc⟩
+    · have c1 := h1.count
+      have e1 : y = x := h1.same (by omega)
+      rw [e1] at a2 b2
+      exact ⟨a2, b2⟩
+
+/-- The bindings of `b'` are those of `b`, each changed at most as `BStep` allows. -/
+def BMono (b b' : Array Binding) : Prop :=
+  b'.size = b.size ∧ ∀ (i : Nat) (x : Binding), b[i]? = some x → ∃ x', b'[i]? = some x' ∧ BStep x x'
+
+theorem BMono.refl (b : Array Binding) : BMono b b := ⟨rfl, fun _ x h => ⟨x, h, BStep.refl x⟩⟩
+
+theorem BMono.of_eq {b b' : Array Binding} (h : b' = b) : BMono b b' := by rw [h]; exact BMono.refl b
+
+theorem BMono.trans {a b c : Array Binding} (h1 : BMono a b) (h2 : BMono b c) : BMono a c := by
+  refine ⟨h2.1.trans h1.1, ?_⟩
+  intro i x hx
+  obtain ⟨y, hy, s1⟩ := h1.2 i x hx
+  obtain ⟨z, hz, s2⟩ := h2.2 i y hy
+  exact ⟨z, hz, s1.trans s2⟩
+
+/-- Invoking a binding that is still bound. -/
+theorem BStep.fired {b : Binding} (hg : b.gone = false) : BStep b b.fired := by
+  refine ⟨rfl, rfl, rfl, rfl, rfl, Nat.le_succ _, ?_, ?_, ?_⟩
+  · intro h; simp only [Binding.fired] at h; omega
+  · intro h; rw [hg] at h; cases h
+  · intro ho
+    refine ⟨Nat.le_refl _, fun _ => ?_⟩
+    simp only [Binding.fired, ho, Bool.true_or]
+
+theorem BMono.fired {binds : Array Binding} {i : Nat} {b : Binding} (h : binds[i]? = some b) (hg : b.gone = false) :
+    BMono binds (binds.setIfInBounds i b.fired) := by
+  refine ⟨by simp, ?_⟩
+  intro j x hx
+  rw [Array.getElem?_setIfInBounds]
+  by_cases hij : i = j
+  · subst hij
+    rw [h] at hx; cases hx
+    have hlt : i < binds.size := by
+      apply Nat.lt_of_not_le
+      intro hge
+      rw [Array.getElem?_eq_none hge] at h; cases h
+    simp only [if_true, hlt]
+    exact ⟨_, rfl, BStep.fired hg⟩
+  · simp only [hij, if_false]
+    exact ⟨x, hx, BStep.refl x⟩
+
+/-- `st'` extends the log of `st` by items that all satisfy `P`, and its bindings are those of `st`, changed only by
+    having been invoked (`BMono`). -/
+def Ext (P : LogItem → Prop) (st st' : St) : Prop :=
+  (∃ new, st'.log = new ++ st.log ∧ ∀ i ∈ new, P i) ∧ BMono st.binds st'.binds
+
+theorem Ext.refl (P : LogItem → Prop) (st : St) : Ext P st st := ⟨⟨[], rfl, by simp⟩, BMono.refl _⟩
+
+theorem Ext.of_log {P : LogItem → Prop} {st st' : St} (h : st'.log = st.log) (hb : st'.binds = st.binds := by rfl) :
+    Ext P st st' := ⟨⟨[], by simpa using h, by simp⟩, BMono.of_eq hb⟩
 
 theorem Ext.trans {P : LogItem → Prop} {a b c : St} (h1 : Ext P a b) (h2 : Ext P b c) : Ext P a c := by
-  obtain ⟨n1, e1, p1⟩ := h1
-  obtain ⟨n2, e2, p2⟩ := h2
-  refine ⟨n2 ++ n1, by rw [e2, e1, List.append_assoc], ?_⟩
+  obtain ⟨⟨n1, e1, p1⟩, b1⟩ := h1
+  obtain ⟨⟨n2, e2, p2⟩, b2⟩ := h2
+  refine ⟨⟨n2 ++ n1, by rw [e2, e1, List.append_assoc], ?_⟩, b1.trans b2⟩
   intro i hi
   rcases List.mem_append.1 hi with h | h
   · exact p2 i h
   · exact p1 i h
 
 theorem Ext.say {P : LogItem → Prop} (st : St) {i : LogItem} (h : P i) : Ext P st (st.say i) :=
-  ⟨[i], rfl, by simpa using h⟩
+  ⟨⟨[i], rfl, by simpa using h⟩, BMono.refl _⟩
 
 /-- A predicate on log items that the bookkeeping items (destroyed, refused) satisfy. -/
 structure Quiet (P : LogItem → Prop) : Prop where
@@ -1285,8 +1391,8 @@ theorem refWin_ext {P : LogItem → Prop} {st st' : St} {win : WinTree.Id} (h : 
 
 theorem refAll_ext {P : LogItem → Prop} : ∀ (cs : List WinTree.Id) (st st' : St), refAll st cs = Res.ok st' → Ext P st st' := by
   intro cs st st' h
-  obtain ⟨_, _, l, _⟩ := refAll_ok cs st st' h
-  exact Ext.of_log l
+  obtain ⟨hb, _, l, _⟩ := refAll_ok cs st st' h
+  exact Ext.of_log l hb
 
 theorem unrefAll_ext {P : LogItem → Prop} (hq : Quiet P) : ∀ (cs : List WinTree.Id) (st st' : St),
     unrefAll st cs = Res.ok st' → Ext P st st' := by
@@ -1300,10 +1406,11 @@ theorem unrefAll_ext {P : LogItem → Prop} (hq : Quiet P) : ∀ (cs : List WinT
     exact (unrefLogged_ext hq h1).trans (ih _ _ h2)
 
 theorem tree_update_ext {P : LogItem → Prop} {st : St} {r : Res Tree} {f : Tree → St} {st' : St}
-    (hf : ∀ t, (f t).log = st.log) (h : (r >>= fun t => pure (f t)) = Res.ok st') : Ext P st st' := by
+    (hf : ∀ t, (f t).log = st.log) (hfb : ∀ t, (f t).binds = st.binds) (h : (r >>= fun t => pure (f t)) = Res.ok st') :
+    Ext P st st' := by
   obtain ⟨t, _, h⟩ := res_bind_eq_ok.1 h
   simp only [res_pure, Res.ok.injEq] at h
-  subst h; exact Ext.of_log (hf t)
+  subst h; exact Ext.of_log (hf t) (hfb t)
 
 theorem doAction_ext {P : LogItem → Prop} (hq : Quiet P) {st st' : St} {a : Action}
     (h : doAction st a = Res.ok st') : Ext P st st' := by
@@ -1346,10 +1453,14 @@ theorem runBindings_ext {P : LogItem → Prop} (hq : Quiet P) (kind : Kind) (win
     | none => simp only [hb] at h; exact ih _ _ _ h
     | some b =>
       simp only [hb] at h
+      by_cases hg : b.gone = true
+      · simp only [hg, if_true] at h; exact ih _ _ _ h
+      simp only [hg, Bool.false_eq_true, if_false] at h
       obtain ⟨st1, h1, h⟩ := res_bind_eq_ok.1 h
-      have e0 : Ext P st (({ st with binds := st.binds.setIfInBounds bi { b with count := b.count + 1 } } : St).say
+      have e0 : Ext P st (({ st with binds := st.binds.setIfInBounds bi b.fired } : St).say
           (.call kind win b.idx (entryIndex b) b.entry.ret ev)) :=
-        (Ext.of_log (st' := { st with binds := _ }) rfl).trans (Ext.say _ (hcall _ _ _))
+        Ext.trans (b := { st with binds := st.binds.setIfInBounds bi b.fired })
+          ⟨⟨[], rfl, by simp⟩, BMono.fired hb (by simpa using hg)⟩ (Ext.say _ (hcall _ _ _))
       have e1 := e0.trans (doActions_ext hq _ _ _ h1)
       by_cases hr : b.entry.ret = true
       · simp only [hr, if_true, res_pure, Res.ok.injEq, Prod.mk.injEq] at h
@@ -2223,6 +2334,47 @@ theorem mouse_returns {x : Out (St × Option WinTree.Id)} {r : Option WinTree.Id
   | ub w => simp at h
   | fuel => simp at h
 
+
+/-- A whole `on_term_key` / `on_term_mouse`: everything it logs satisfies `P`, given that `P` holds of whatever a
+    dispatch of a key event of this kind, respectively of any mouse event, may log (`Routed`); and the bindings change
+    only by having been invoked (`BMono`, part of `Ext`). -/
+theorem onTerm_ext {cfg : Cfg} {P : LogItem → Prop} {fuel : Nat} {st st' : St} {ev : Ev} {r : Bool}
+    (hk : Routed cfg .key ev P) (hm : ∀ e, Routed cfg .mouse e P)
+    (h : onTermKey cfg fuel st ev = Out.ok (st', r) ∨ onTermMouse cfg fuel st ev = Out.ok (st', r)) : Ext P st st' := by
+  rcases h with h | h
+  · exact handleKey_ext hk fuel st 0 st' r h
+  · obtain ⟨st0, st1, st2, handled, st3, st4, h0, h1, h2, h3, h4, h5, _⟩ := onTermMouse_ok h
+    have hq : Quiet P := (hm ev).toQuiet
+    have hr : ∀ e, Routed cfg .mouse e P := hm
+    have e1 : Ext P st0 st1 := by
+      unfold dragPrelude at h1
+      by_cases c1 : ev.type = evPress
+      · simp only [c1, if_true, out_pure, Out.ok.injEq] at h1; subst h1; exact Ext.of_log rfl
+      · simp only [c1, if_false] at h1
+        by_cases c2 : (ev.type = evDrag && !st0.tree.root.mouseDragging) = true
+        · rw [if_pos c2] at h1
+          obtain ⟨⟨sa, src⟩, ha, h1⟩ := out_bind_eq_ok.1 h1
+          obtain ⟨sb, hb, h1⟩ := lift_bind_eq_ok.1 h1
+          simp only [out_pure, Out.ok.injEq] at h1; subst h1
+          exact ((handleMouse_ext (hr _) fuel _ _ _ _ _ (sameKind.rfl' _) ha).trans (dragSourceSet_ext hq hb)).trans
+            (Ext.of_log rfl)
+        · rw [if_neg c2] at h1
+          by_cases c3 : (ev.type = evRelease && st0.tree.root.mouseDragging) = true
+          · rw [if_pos c3] at h1
+            obtain ⟨⟨sa, dropped⟩, ha, h1⟩ := out_bind_eq_ok.1 h1
+            obtain ⟨sb, hb, h1⟩ := lift_bind_eq_ok.1 h1
+            obtain ⟨sc, hcc, h1⟩ := out_bind_eq_ok.1 h1
+            simp only [out_pure, Out.ok.injEq] at h1; subst h1
+            have e3 : Ext P sb sc := by
+              unfold dragStop at hcc
+              cases hsrc : sb.tree.root.dragSource with
+              | none => simp only [hsrc, out_pure, Out.ok.injEq] at hcc; subst hcc; exact Ext.refl _ _
+              | some src => simp only [hsrc] at hcc; exact toDragSource_ext (fun _ _ => hr _) hcc
+            exact (((handleMouse_ext (hr _) fuel _ _ _ _ _ (sameKind.rfl' _) ha).trans (dropResult_ext hq hb)).trans e3).trans
+              (Ext.of_log rfl)
+          · rw [if_neg c3] at h1; simp only [out_pure, Out.ok.injEq] at h1; subst h1; exact Ext.refl _ _
+    exact ((((refWin_ext h0).trans e1).trans (handleMouse_ext (hr ev) fuel _ _ _ _ _ (sameKind.rfl' _) h2)).trans
+      (dragOutside_ext (fun _ _ => hr _) h3)).trans ((dropResult_ext hq h4).trans (unrefLogged_ext hq h5))
 
 end WinInput
 end Tickit
